@@ -450,8 +450,8 @@ def run(ctx):
                 continue
             seen_sig.add(opsig)
             rc2, out2, err2 = ctx.run_exe(exe, [arg], stdin=line + "\n", timeout=60)
-            ctx.violation("%s: the real code aborts under ASan/UBSan (rc=%d) on a history the property covers — a wrapper's base pointer "
-                          "does not designate live storage of size() elements" % (label, rc2 if rc2 else rc),
+            ctx.violation("%s: the real code aborts with a sanitizer report (rc=%d: 99 ASan, 98 UBSan) on a case the property covers — "
+                          "an access the wrapper performs or licenses (element i < size(), at(), iteration, DataView[i]) leaves live storage" % (label, rc2 if rc2 else rc),
                           {"label": label, "case": line, "original_case": case,
                            "observed": (out2.strip() or "<process aborted before the line was complete>"),
                            "sanitizer": asan_summary(err2) or summ, "required": oracle(line)})
